@@ -164,6 +164,7 @@ pub enum Expect {
         overwrite: bool,
         /// root-relative project dir
         dir: String,
+        all_steps: bool,
     },
     Conv {
         /// None = declined / nothing to check
@@ -202,7 +203,7 @@ pub fn predict(snap: &Snap, inv: &Inv, answer_yes: bool, oracle: &mut Oracle, mo
     let p = model.p.clone();
     let p = &p;
     match &inv.cmd {
-        Cmd::Seq { path, tag, output, overwrite, output_all, .. } => {
+        Cmd::Seq { path, tag, output, overwrite, output_all, all_steps } => {
             let dir = cli::resolve(&inv.cwd, path.as_deref().unwrap_or("."));
             if dir != PROJ {
                 return Pred::Unjudgeable;
@@ -228,7 +229,7 @@ pub fn predict(snap: &Snap, inv: &Inv, answer_yes: bool, oracle: &mut Oracle, mo
                 }
             }
             let ow = overwrite.unwrap_or(answer_yes);
-            Pred::Judged(Expect::Seq { tags, output: *output, output_all: *output_all, overwrite: ow, dir })
+            Pred::Judged(Expect::Seq { tags, output: *output, output_all: *output_all, overwrite: ow, dir, all_steps: *all_steps })
         }
         Cmd::Edit { .. } => Pred::Unjudgeable,
         Cmd::ConvTag { path, tag, recurse, output } => {
@@ -322,7 +323,7 @@ fn tail(s: &str) -> String {
     }
 }
 
-fn check_stdout_seq(stdout: &str, tag: &str, stages: &[Vec<String>]) -> Result<(), String> {
+fn check_stdout_seq(stdout: &str, tag: &str, stages: &[Vec<String>], all_steps: bool) -> Result<(), String> {
     let lines: Vec<&str> = stdout.lines().collect();
     let header = format!("OUTPUT - {tag}");
     let Some(h) = lines.iter().position(|l| *l == header) else { return Err(format!("no `{header}` block in stdout")) };
@@ -340,6 +341,14 @@ fn check_stdout_seq(stdout: &str, tag: &str, stages: &[Vec<String>]) -> Result<(
         let fin = l[pos + 2..].trim();
         if !l.starts_with(first[i].as_str()) || fin != last[i] {
             return Err(format!("block {tag}: line {i} is {l:?}, expected `{} => {}`", first[i], last[i]));
+        }
+        if all_steps {
+            // -a: every stage in order, separated by arrows
+            let cols: Vec<&str> = l.split("=>").map(|c| c.trim()).collect();
+            let want: Vec<&str> = stages.iter().map(|st| st[i].as_str()).collect();
+            if cols != want {
+                return Err(format!("block {tag}: line {i} shows stages {cols:?}, expected {want:?}"));
+            }
         }
     }
     Ok(())
@@ -367,14 +376,14 @@ fn check_strict(e: &Expect, o: &InvOut, before: &Snap, after: &Snap, inv_i: usiz
             }
             None
         }
-        Expect::Seq { tags, output, output_all, overwrite, dir } => {
+        Expect::Seq { tags, output, output_all, overwrite, dir, all_steps } => {
             if o.out.code != Some(0) {
                 return Some(Fail { clause: "exit-status", inv: inv_i, detail: format!("exit {:?} signal {:?}, expected 0; stdout {:?} stderr {:?}", o.out.code, o.out.signal, tail(&o.out.stdout), tail(&o.out.stderr)) });
             }
             for (t, st) in tags {
                 match st {
                     Some(st) => {
-                        if let Err(s) = check_stdout_seq(&o.out.stdout, t, st) {
+                        if let Err(s) = check_stdout_seq(&o.out.stdout, t, st, *all_steps) {
                             return Some(Fail { clause: "stdout", inv: inv_i, detail: s });
                         }
                     }
